@@ -537,4 +537,133 @@ public class Prim implements ITLCOverrides {
             e[j] = seq(j == 0 ? rk[nr] : j == nr ? rk[0] : invMixColumns(rk[nr - j]));
         return new TupleValue(e);
     }
+
+    // ------------------------------------------------------------------ streaming multi-hash / murmur over pattern segments (long streams)
+    interface Sink {
+        void put(byte[] b, int off, int len);
+    }
+
+    static void feedSegs(Value segs, Sink sink) {
+        TupleValue t = (TupleValue) segs.toTuple();
+        byte[] period = null;
+        int periodB = -1;
+        for (Value sv : t.elems) {
+            TupleValue sg = (TupleValue) sv.toTuple();
+            int b = i(sg.elems[0]);
+            long off = i(sg.elems[1]);
+            long len = sg.elems.length > 3 ? (((long) i(sg.elems[2]) << 20) + i(sg.elems[3])) : i(sg.elems[2]);
+            if (periodB != b) {
+                period = new byte[PERIOD];
+                patFill(period, 0, b, 0, PERIOD);
+                periodB = b;
+            }
+            long pos = off & (PERIOD - 1);
+            while (len > 0) {
+                int n = (int) Math.min(len, PERIOD - pos);
+                sink.put(period, (int) pos, n);
+                len -= n;
+                pos = 0;
+            }
+        }
+    }
+
+    /** MhDigestOfSegs(alg, segs): MultiHash!MhDigest of the concatenation of pattern segments <<b, off, lenHi, lenLo>>, streaming. */
+    @TLAPlusOperator(identifier = "MhDigestOfSegs", module = "Prim", warn = false)
+    public static Value mhDigestOfSegs(final Value algv, final Value segs) {
+        final String alg = s(algv);
+        final int dl = alg.equals("sha1") ? 20 : 32;
+        final byte[][] st = new byte[16][];
+        byte[] iv = alg.equals("sha1") ? unhex("67452301efcdab8998badcfe10325476c3d2e1f0")
+                : unhex("6a09e667bb67ae853c6ef372a54ff53a510e527f9b05688c1f83d9ab5be0cd19");
+        for (int k = 0; k < 16; k++)
+            st[k] = iv.clone();
+        final byte[] blk = new byte[1024];
+        final int[] fill = { 0 };
+        final long[] total = { 0 };
+        final byte[] seg = new byte[64];
+        final Runnable doBlock = () -> {
+            for (int j = 0; j < 16; j++) {
+                for (int tt = 0; tt < 16; tt++)
+                    System.arraycopy(blk, 4 * (16 * tt + j), seg, 4 * tt, 4);
+                st[j] = alg.equals("sha1") ? Hashes.sha1(st[j], seg, 0) : Hashes.sha256(st[j], seg, 0);
+            }
+        };
+        Sink sink = (b, off, len) -> {
+            total[0] += len;
+            while (len > 0) {
+                int n = Math.min(len, 1024 - fill[0]);
+                System.arraycopy(b, off, blk, fill[0], n);
+                fill[0] += n;
+                off += n;
+                len -= n;
+                if (fill[0] == 1024) {
+                    doBlock.run();
+                    fill[0] = 0;
+                }
+            }
+        };
+        feedSegs(segs, sink);
+        long bits = total[0] * 8;
+        int padn = (int) ((1024 - ((total[0] + 1 + 8) % 1024)) % 1024);
+        byte[] pad = new byte[1 + padn + 8];
+        pad[0] = (byte) 0x80;
+        putBe64(pad, pad.length - 8, bits);
+        sink.put(pad, 0, pad.length);
+        byte[] mat = new byte[dl * 16];
+        int nw = dl / 4;
+        for (int k = 0; k < nw; k++)
+            for (int j = 0; j < 16; j++)
+                for (int q = 0; q < 4; q++)
+                    mat[4 * (16 * k + j) + q] = st[j][4 * k + 3 - q];
+        try {
+            MessageDigest jd = MessageDigest.getInstance(alg.equals("sha1") ? "SHA-1" : "SHA-256");
+            return seq(jd.digest(mat));
+        } catch (Exception e) {
+            throw new RuntimeException(e);
+        }
+    }
+
+    /** Murmur3OfSegs(segs, seed8): MurmurHash3_x64_128 of the concatenation of pattern segments, streaming. */
+    @TLAPlusOperator(identifier = "Murmur3OfSegs", module = "Prim", warn = false)
+    public static Value murmur3OfSegs(final Value segs, final Value seed8) {
+        final long c1 = 0x87c37b91114253d5L, c2 = 0x4cf5ad432745937fL;
+        final long seed = le64(bytes(seed8), 0);
+        final long[] h = { seed, seed };
+        final byte[] buf = new byte[16];
+        final int[] fill = { 0 };
+        final long[] total = { 0 };
+        Sink sink = (b, off, len) -> {
+            total[0] += len;
+            while (len > 0) {
+                int n = Math.min(len, 16 - fill[0]);
+                System.arraycopy(b, off, buf, fill[0], n);
+                fill[0] += n;
+                off += n;
+                len -= n;
+                if (fill[0] == 16) {
+                    long k1 = le64(buf, 0), k2 = le64(buf, 8);
+                    k1 *= c1; k1 = rotl64(k1, 31); k1 *= c2; h[0] ^= k1;
+                    h[0] = rotl64(h[0], 27); h[0] += h[1]; h[0] = h[0] * 5 + 0x52dce729;
+                    k2 *= c2; k2 = rotl64(k2, 33); k2 *= c1; h[1] ^= k2;
+                    h[1] = rotl64(h[1], 31); h[1] += h[0]; h[1] = h[1] * 5 + 0x38495ab5;
+                    fill[0] = 0;
+                }
+            }
+        };
+        feedSegs(segs, sink);
+        long h1 = h[0], h2 = h[1], k1 = 0, k2 = 0;
+        int rem = fill[0];
+        for (int k = rem - 1; k >= 8; k--)
+            k2 = (k2 << 8) | (buf[k] & 0xff);
+        if (rem > 8) { k2 *= c2; k2 = rotl64(k2, 33); k2 *= c1; h2 ^= k2; }
+        for (int k = Math.min(rem, 8) - 1; k >= 0; k--)
+            k1 = (k1 << 8) | (buf[k] & 0xff);
+        if (rem > 0) { k1 *= c1; k1 = rotl64(k1, 31); k1 *= c2; h1 ^= k1; }
+        h1 ^= total[0]; h2 ^= total[0];
+        h1 += h2; h2 += h1; h1 = fmix64(h1); h2 = fmix64(h2); h1 += h2; h2 += h1;
+        byte[] r = new byte[16];
+        putLe64(r, 0, h1);
+        putLe64(r, 8, h2);
+        return seq(r);
+    }
 }
